@@ -189,12 +189,39 @@ def _first_ifexp(stmt, values=False):
             and isinstance(stmt.value.args[0], ast.IfExp):
         # x = list(a if c else b): the test is evaluated first either way
         return stmt.value.args[0]
+    if values == "deep" and isinstance(stmt, (ast.Assign, ast.Return,
+                                              ast.Expr)) and \
+            stmt.value is not None:
+        # a conditional expression anywhere in a value whose evaluation has
+        # no effect other than, possibly, its outermost call: the test can
+        # be taken first
+        v = stmt.value
+        inner_calls = [n for n in ast.walk(v) if isinstance(n, ast.Call)
+                       and n is not v]
+        if all(isinstance(c.func, ast.Name) and c.func.id in (
+                "isinstance", "hasattr", "int", "len", "bool", "getattr",
+                "type", "str") for c in inner_calls) and not any(
+                    isinstance(n, (ast.Await, ast.Yield, ast.YieldFrom,
+                                   ast.NamedExpr, ast.Lambda, ast.ListComp,
+                                   ast.SetComp, ast.DictComp,
+                                   ast.GeneratorExp)) for n in ast.walk(v)):
+            for n in ast.walk(v):
+                if isinstance(n, ast.IfExp):
+                    return n
     for n in _walk_no_nested(stmt):
         if isinstance(n, ast.IfExp) and isinstance(
                 n.body, (ast.Name, ast.Attribute)) and isinstance(
                     n.orelse, (ast.Name, ast.Attribute)):
             return n
     return None
+
+
+def lift_nested_values(fn):
+    """`k = (a.x if p(a) else a, b.y if q(b) else b)` as the if/else
+    statements that choose among the four plain tuples (copy of fn)."""
+    fn = _lift(acopy(fn), values="deep")
+    ast.fix_missing_locations(fn)
+    return fn
 
 
 def _lift(fn, values=False):
